@@ -26,4 +26,7 @@ def tasks(tier, seed=0):
     base = [task(B, "ob_base_new", "basenew.Base.__new__/metadata", ["C05", "C07"], tier=tier),
             task(B, "ob_make_like", "basenew.Base.make_like/metadata", ["C05", "C07"], tier=tier)]
     from vf.props import C08 as _C08
+    # expressions that come back from Z3 (simplify, model values): the leaf built for a Z3 symbol has the symbol's width, whatever was abstracted before
+    base.append(task("vf.contracts.z3rt", "ob_symbol_history", "z3rt.symbol-leaf/sort-independent-of-history", ["C09", "C05"], replay="vf.contracts.z3rt:replay", tier=tier))
+    base.append(task(B, "ob_base_new_table", "hashcons.Base.__new__/table-discipline", ["C06", "C05"], tier=tier))
     return [task("vf.contracts.lengths", "ob_lengths", "lengths.operations/calculators", ["C05"])] + base + rel + _C08.shape_tasks(tier, seed, count=4) + _C01._compose_tasks(tier, seed + 5)
